@@ -91,8 +91,116 @@ def run_modes(rep, modes, cfgs, floor=50):
                "collision pattern (kernels touch a key only through its hash columns)")
 
 
+BOUNDARY_V = [0, 1, 2, 2**16, 2**31 - 1, 2**31, 2**32 - 3, 2**32 - 2, 2**32 - 1, 2**32, 2**32 + 1,
+              2**33, 2**40, 2**63, 2**64 - 1]
+BOUNDARY_KEYS = [b"", b"\x00", b"k", bytes(range(64))]
+
+
+def spell(v, how):
+    """The multiplicity v spelled as another integer type (None if it does not fit)."""
+    import numpy as np
+
+    if how == "int":
+        return v
+    lim = {"uint64": 2**64, "int64": 2**63, "uint32": 2**32}[how]
+    if v >= lim:
+        return None
+    return getattr(np, how)(v)
+
+
+def boundary_case(kind_args, shared, key, c0, via, v):
+    """One key alone in a real linear sketch, count c0, then ONE call adding multiplicity v
+    through `via`.  Alone in the sketch the key's estimate must be exactly min(c0+v, 2^32-1)
+    (lower bound = true count, upper bound = true count: nobody else is there)."""
+    from .. import sk as SK
+
+    MAX = 2**32 - 1
+    sk = SK.make("linear", *kind_args, shared_memory=shared)
+    if c0:
+        sk.add(key, c0)
+    if via == "add":
+        sk.add(key, v)
+    elif via == "dict":
+        sk.update({key: v})
+    elif via.startswith("add:"):
+        v_ = spell(v, via[4:])
+        sk.add(key, v_)
+    elif via.startswith("dict:"):
+        sk.update({key: spell(v, via[5:])})
+    elif via == "list":
+        sk.update([key] * v)
+    elif via == "iter":
+        sk.update(iter([key] * v))
+    elif via == "tuple":
+        sk.update(tuple([key] * v))
+    want = min(c0 + v, MAX)
+    return sk, want
+
+
+def boundary_sweep(rep):
+    """E3: every (start count) x (boundary multiplicity) x (entry point) x (key incl. the empty
+    one) on a one-key sketch; estimate must be exact."""
+    from .. import sk as SK
+    from ..common import quiet_shm
+
+    quiet_shm()
+    MAX = 2**32 - 1
+    n = 0
+    for args, shared in (([1, 1], False), ([2, 2], False), ([3, 2], True)):
+        for key in BOUNDARY_KEYS:
+            for c0 in (0, 5, 2**32 - 3, 2**32 - 1):
+                for via, vs in (("add", BOUNDARY_V), ("dict", BOUNDARY_V),
+                                ("add:uint64", BOUNDARY_V), ("add:int64", BOUNDARY_V),
+                                ("add:uint32", BOUNDARY_V), ("dict:uint64", BOUNDARY_V),
+                                ("list", [0, 1, 3]), ("tuple", [1, 3]), ("iter", [1, 3])):
+                    for v in vs:
+                        if ":" in via and spell(v, via.split(":")[1]) is None:
+                            continue
+                        case = {"part": "boundary", "args": args, "shared": shared, "key": key,
+                                "c0": c0, "via": via, "v": v}
+                        violated, obs = replay_boundary(case)
+                        n += 1
+                        rep.evals()
+                        if violated:
+                            rep.violation(case, f"linear{args} holding only {key[:8]!r} x{c0}: after "
+                                                f"{via} of multiplicity {v} the estimate is "
+                                                f"{obs['estimate']}, must be {obs['want']}")
+            rep.nontrivial(("boundary", tuple(args), key))
+    # n-gram documents: empty document, document shorter than / equal to / longer than n
+    for doc, g in ((b"", 1), (b"", 3), (b"ab", 3), (b"abc", 3), (b"aaaa", 1), (b"aaaaa", 3),
+                   (b"\x00" * 6, 2), (bytes(range(64)) * 2, 64)):
+        sk = SK.make("linear", 2, 2)
+        sk.add_ngram(doc, g)
+        grams = [doc] if len(doc) <= g else [doc[i:i + g] for i in range(len(doc) - g + 1)]
+        if len(doc) == 0:
+            grams = []
+        n += 1
+        rep.evals()
+        for k in set(grams):
+            if int(sk.query(k)) < grams.count(k):
+                rep.violation({"part": "boundary_ngram", "doc": doc, "n": g},
+                              f"add_ngram({doc[:10]!r}.., {g}): estimate of {k[:8]!r} is "
+                              f"{int(sk.query(k))} < true {grams.count(k)}")
+    rep.part("boundary_sweep", cases=n)
+    return n
+
+
+def replay_boundary(case):
+    from ..common import quiet_shm
+
+    if case["shared"]:
+        quiet_shm()
+    sk, want = boundary_case(case["args"], case["shared"], case["key"], case["c0"], case["via"],
+                             case["v"])
+    est = int(sk.query(case["key"]))
+    return est != want, {"estimate": est, "want": want}
+
+
 def run(rep):
     run_modes(rep, MODES, configs(rep.tier, rep.seed))
+    n = boundary_sweep(rep)
+    rep.add("transitions", n)
+    rep.add("traces_validated_against_impl", n)
     rep.set(
         "rule",
         "state = full concrete state of every real sketch + true counts per key; BFS over "
@@ -102,6 +210,19 @@ def run(rep):
 
 
 def replay(case):
+    if case.get("part") == "boundary":
+        return replay_boundary(case)
+    if case.get("part") == "boundary_ngram":
+        from .. import sk as SK
+
+        sk = SK.make("linear", 2, 2)
+        doc, g = case["doc"], case["n"]
+        sk.add_ngram(doc, g)
+        grams = [doc] if len(doc) <= g else [doc[i:i + g] for i in range(len(doc) - g + 1)]
+        if not doc:
+            grams = []
+        got = {k: int(sk.query(k)) for k in set(grams)}
+        return any(got[k] < grams.count(k) for k in got), {"estimates": sorted(got.items())}
     if case["cfg"].get("shared"):
         from ..common import quiet_shm
 
